@@ -55,6 +55,19 @@ CLAIMED = {
         "DEFAULTS dump; JSON/float round-trip and the batch run are runtime.",
         "Lean 4 proof (invariant by induction over operation histories) + history correspondence + scripted "
         "setup/legacy/batch-fit oracles", "DESIGN.md §5 C19"),
+    "C16": (
+        "Machine-checked Lean 4 proof about a hand model of save_hdf5/load_hdf5 in which a save is the ordered "
+        "list of primitive HDF5 writes and a failure may be injected after ANY number of them: the container "
+        "stays loadable after every prefix of every save (invariant proved for all containers, curves and "
+        "fault indices), all ratings of other curves are loaded unchanged (grow-only), a different fit for a "
+        "stored curve is refused and changes nothing, re-saving keeps the columns, and a saved curve loads "
+        "back with its columns and user fields. Tied by comparing real HDF5 dumps and load results after "
+        "every operation with faults injected at write indices (h5py calls wrapped). Partial: durability "
+        "under process kill, HDF5 bytes and np.allclose are runtime.",
+        "Trusted: Lean kernel, standard axioms, hand model (dump correspondence under fault injection), "
+        "'same fit' as digest equality, h5py/HDF5.",
+        "Lean 4 proof (invariant over all prefixes of the write sequence; refinement of load) + fault-injection "
+        "correspondence on real containers", "DESIGN.md §5 C16"),
 }
 
 PENDING_REASON = "check not built yet in this round (planned, see DESIGN.md §8); not claimed until its machinery exists"
